@@ -136,6 +136,18 @@ class ChannelHook:
                        clause="a worker never calls %s (socket map / descriptors change only on the I/O thread)" % name, kind="discipline")
 
     def on_cv_wait(self, eng, cond=None):
+        me = getattr(eng, "self_under_verification", None)
+        if me is not None and me.cls == CH and eng.cur_func.split("@")[0].endswith("_flush_outbufs_below_high_watermark"):
+            # C05/C12: a producer goes to sleep only while there really is a backlog above the mark on a live connection -- otherwise nobody
+            # will ever notify it (the channel is not even writable when the backlog is empty)
+            tot = eng.force(eng.state.heap[(me.oid, "total_outbufs_len")])
+            adj = eng.force(eng.state.heap[(me.oid, "adj")])
+            hw = eng.force(eng.getattr(adj, "outbuf_high_watermark"))
+            conn = eng.truth(eng.force(eng.state.heap[(me.oid, "connected")]))
+            wc = eng.truth(eng.force(eng.state.heap[(me.oid, "will_close")]))
+            # (after a failed flush the producer waits once for the I/O thread's teardown, which notifies: will_close is set then)
+            eng.oblige("%s/C05-a-producer-sleeps-only-while-the-backlog-is-above-the-mark" % eng.cur_func, z3.Or(wc, z3.And(conn, tot.t > hw.t)),
+                       clause="outbuf_lock.wait() only with (self.connected and self.total_outbufs_len > adj.outbuf_high_watermark) or self.will_close", kind="discipline")
         pulled = eng.state.ghost.get("pulled", False)
         eng.oblige("%s/R5:pulled-before-wait" % eng.cur_func, z3.BoolVal(bool(pulled)),
                    clause="the I/O loop has been woken (pull_trigger) since the last wait before blocking on outbuf_lock", kind="discipline")
